@@ -1,7 +1,13 @@
 #!/bin/bash
 # tools/run_neutral.sh <name>:<prop>[,<prop>...] ... : run the checks of the given properties against each behaviour-preserving
-# refactoring under /verif/neutral/<name>/patch.diff (scratch copy); log to /tmp/neutralrun_<name>.log.  Expected: no VIOLATION line.
+# refactoring under /verif/neutral/<name>/patch.diff (scratch copy); log to /tmp/neutralrun_<name>.log and keep the summary lines of every
+# (patch, property) pair in /verif/neutral/<name>/last_check_<prop>.txt.  Expected: no VIOLATION line, ideally exit 0.
 for spec in "$@"; do
   n=${spec%%:*}; props=${spec#*:}
-  /verif/tools/try_patch.sh /verif/neutral/$n/patch.diff ${props//,/ } > /tmp/neutralrun_$n.log 2>&1
+  : > /tmp/neutralrun_$n.log
+  for p in ${props//,/ }; do
+    /verif/tools/try_patch.sh /verif/neutral/$n/patch.diff $p > /tmp/neutralrun_$n.$p.log 2>&1
+    cat /tmp/neutralrun_$n.$p.log >> /tmp/neutralrun_$n.log
+    grep -E "VIOLATION|UNDECIDED|BOUNDED|tier=|exit=" /tmp/neutralrun_$n.$p.log | cut -c1-500 > /verif/neutral/$n/last_check_$p.txt
+  done
 done
